@@ -10,7 +10,7 @@ using namespace squids;
 
 enum { OP_DEFAULT=1, OP_SIZED, OP_EXTERNAL, OP_FROMLIST, OP_ALIGNED, OP_COPYCON, OP_MOVECON, OP_DESTROY, OP_COPYASSIGN, OP_MOVEASSIGN,
        OP_SETBACKING, OP_EXPR, OP_PLAININC, OP_PLAINDEC, OP_SCALE, OP_DIVIDE, OP_EQ, OP_TRACE, OP_FILL, OP_FROMMATRIX, OP_FACTORY,
-       OP_ROTMAT, OP_CLEARCACHE, OP_PRINT, OP_GETMATRIX, OP_COMPONENTS, OP_ROTATE, OP_UNARYVIEW, OP_EIGEN, OP_ELEMENTWISE_USER, OP_CONVERT };
+       OP_ROTMAT, OP_CLEARCACHE, OP_PRINT, OP_GETMATRIX, OP_COMPONENTS, OP_ROTATE, OP_UNARYVIEW, OP_EIGEN, OP_ELEMENTWISE_USER, OP_CONVERT, OP_CHURN };
 
 struct user_op{ double operator()(double a, double b) const { return a*b+a; } };
 
@@ -107,6 +107,11 @@ extern "C" int h_op(unsigned op, void* tp, void* s1p, void* s2p, unsigned x, uns
       case OP_COMPONENTS: { std::vector<double> v=t->GetComponents(); res[0]=v.size(); for(size_t i=0;i<v.size();i++) ext[i]=v[i]; } break;
       case OP_ROTATE: *t = s1->Rotate(x,y,c,0.5*c); break;
       case OP_UNARYVIEW: if(x==0) t->Transpose(); else if(x==1) *t = s1->Real(); else *t = s1->Imag(); break;
+      case OP_CHURN: { // y self-owned vectors of dimension x alive at once, then all released (fills / overflows the per-dimension block cache)
+        SU_vector* arr=new SU_vector[y];
+        try{ for(unsigned i=0;i<y;i++) arr[i]=SU_vector(x); }catch(...){ delete[] arr; throw; }
+        delete[] arr;
+      } break;
       case OP_CONVERT: // implicit proxy -> SU_vector conversions (sub-expressions)
         switch(x){
           case 0: { SU_vector r = (*s1)+(*s2); new(tp) SU_vector(std::move(r)); } break;
